@@ -595,8 +595,42 @@ fn wrappers(seed: u64, rep: &mut Report) {
             if direct != by_ref || direct != by_val || r0.fingerprint() != r1.fingerprint() || r0.fingerprint() != r2.fingerprint() {
                 rep.violation("C14/wrapper-Mutate", || json!({"genome": genome, "direct": format!("{direct:?}"), "by_ref": format!("{by_ref:?}"), "by_value": format!("{by_val:?}")}));
             }
+            // every reference form of the forwarding impls: &M, &&M, &mut M, and the wrapper around them
+            {
+                let mut pm_mut = PM { fail };
+                let mut pm_mut2 = PM { fail };
+                let forms: Vec<(&str, Result<Vec<u64>, ProbeMutErr>, vh_core::trace_rng::Fingerprint)> = vec![
+                    { let mut r = TraceRng::stream(s); let v = Mutator::mutate(&&pm, genome.clone(), &mut r); ("<&M as Mutator>::mutate", v, r.fingerprint()) },
+                    { let mut r = TraceRng::stream(s); let v = Mutator::mutate(&&&pm, genome.clone(), &mut r); ("<&&M as Mutator>::mutate", v, r.fingerprint()) },
+                    { let mut r = TraceRng::stream(s); let v = Mutator::mutate(&&mut pm_mut, genome.clone(), &mut r); ("<&mut M as Mutator>::mutate", v, r.fingerprint()) },
+                    { let mut r = TraceRng::stream(s); let v = Mutate::new(&mut pm_mut2).apply(genome.clone(), &mut r); ("Mutate::new(&mut M)", v, r.fingerprint()) },
+                    { let mut r = TraceRng::stream(s); let v = Mutate::new(&&pm).apply(genome.clone(), &mut r); ("Mutate::new(&&M)", v, r.fingerprint()) },
+                    { let mut r = TraceRng::stream(s); let v = (&Mutate::new(&pm)).apply(genome.clone(), &mut r); ("(&Mutate).apply", v, r.fingerprint()) },
+                ];
+                for (form, v, fp) in forms {
+                    rep.eval();
+                    rep.count("wrappers:Mutator-reference-forms");
+                    if v != direct || fp != r0.fingerprint() {
+                        rep.violation("C14/wrapper-Mutate", || json!({"form": form, "genome": genome, "direct": format!("{direct:?}"), "through_this_form": format!("{v:?}"), "stream_position_equal": fp == r0.fingerprint()}));
+                    }
+                }
+            }
             let mut r0 = TraceRng::stream(s);
             let direct = pm.recombine([genome.clone(), other.clone()], &mut r0);
+            {
+                let forms: Vec<(&str, Result<Vec<u64>, ProbeMutErr>, vh_core::trace_rng::Fingerprint)> = vec![
+                    { let mut r = TraceRng::stream(s); let v = Recombinator::recombine(&&pm, [genome.clone(), other.clone()], &mut r); ("<&R as Recombinator>::recombine", v, r.fingerprint()) },
+                    { let mut r = TraceRng::stream(s); let v = Recombinator::recombine(&&&pm, [genome.clone(), other.clone()], &mut r); ("<&&R as Recombinator>::recombine", v, r.fingerprint()) },
+                    { let mut r = TraceRng::stream(s); let v = Recombine::new(&&pm).apply([genome.clone(), other.clone()], &mut r); ("Recombine::new(&&R)", v, r.fingerprint()) },
+                ];
+                for (form, v, fp) in forms {
+                    rep.eval();
+                    rep.count("wrappers:Recombinator-reference-forms");
+                    if v != direct || fp != r0.fingerprint() {
+                        rep.violation("C14/wrapper-Recombine", || json!({"form": form, "genome": genome, "direct": format!("{direct:?}"), "through_this_form": format!("{v:?}"), "stream_position_equal": fp == r0.fingerprint()}));
+                    }
+                }
+            }
             let mut r1 = TraceRng::stream(s);
             let by_ref = Recombine::new(&pm).apply([genome.clone(), other.clone()], &mut r1);
             let mut r2 = TraceRng::stream(s);
@@ -619,6 +653,19 @@ fn wrappers(seed: u64, rep: &mut Report) {
                 let by_ref = Select::new(&sel).apply(&pop, &mut r1).map(|x| x as *const _).map_err(|e| format!("{e:?}"));
                 let mut r2 = TraceRng::stream(s);
                 let by_val = Select::new($mk).apply(&pop, &mut r2).map(|x| x as *const _).map_err(|e| format!("{e:?}"));
+                {
+                    let mut r = TraceRng::stream(s);
+                    let v = Selector::select(&&sel, &pop, &mut r).map(|x| x as *const _).map_err(|e| format!("{e:?}"));
+                    let mut r3 = TraceRng::stream(s);
+                    let v3 = Selector::select(&&&sel, &pop, &mut r3).map(|x| x as *const _).map_err(|e| format!("{e:?}"));
+                    let mut r4 = TraceRng::stream(s);
+                    let v4 = Select::new(&&sel).apply(&pop, &mut r4).map(|x| x as *const _).map_err(|e| format!("{e:?}"));
+                    rep.eval();
+                    rep.count("wrappers:Selector-reference-forms");
+                    if v != direct || v3 != direct || v4 != direct || r.fingerprint() != r0.fingerprint() || r3.fingerprint() != r0.fingerprint() || r4.fingerprint() != r0.fingerprint() {
+                        rep.violation("C14/wrapper-Select", || json!({"selector": $name, "population_size": pop.len(), "direct": format!("{direct:?}"), "<&S>::select": format!("{v:?}"), "<&&S>::select": format!("{v3:?}"), "Select::new(&&S)": format!("{v4:?}")}));
+                    }
+                }
                 rep.eval();
                 rep.count("wrappers:Select");
                 if direct != by_ref || direct != by_val || r0.fingerprint() != r1.fingerprint() || r0.fingerprint() != r2.fingerprint() {
